@@ -500,8 +500,8 @@ class Interp:
     def store_attr(self, name, v, p):
         if v[0] == 'obj' and v[1] == 'new':
             v = ('obj', 'new:' + name) + tuple(v[2:])
-        if v[0] == 'enum':
-            v = ('enum', v[1], 'this')
+        if v[0] in ('enum', 'enumf'):
+            v = (v[0], v[1], 'this')
         if name == 'testsRun':
             if v[0] == 'int':
                 return p.set('tr', (v[1], v[2]))
@@ -720,6 +720,16 @@ class Interp:
                     [g.iter for g in e.generators[1:]] + \
                     ([e.key, e.value] if isinstance(e, ast.DictComp) else [e.elt])
             for acc, q3 in self._seq_opaque(parts, q2):
+                if v[0] == 'enum' and acc and acc[0] != '!raise' and len(e.generators) == 1 and \
+                        isinstance(e, (ast.ListComp, ast.SetComp, ast.GeneratorExp)):
+                    # a selection from the enumeration of the running threads: if it is kept as the
+                    # per-test snapshot, the snapshot is not the complete enumeration
+                    g0 = e.generators[0]
+                    plain = not g0.ifs and isinstance(e.elt, ast.Name) and isinstance(g0.target, ast.Name) \
+                        and e.elt.id == g0.target.id
+                    acc = ('enum', v[1], v[2]) if plain else (
+                        'enumf', '%s filtered by [%s]' % (v[1], ', '.join(
+                            ast.unparse(c)[:50] for c in g0.ifs) or ast.unparse(e.elt)[:50]), v[2])
                 out.append((acc, q3.with_env(saved)))
         return out
 
@@ -773,7 +783,7 @@ class Interp:
                         r[0] in ('none', 'bool', 'str', 'int') else None
                     if s is not None:
                         res = ('bool', s if isinstance(op, ast.Eq) else not s)
-                elif isinstance(op, (ast.In, ast.NotIn)) and r[0] == 'enum':
+                elif isinstance(op, (ast.In, ast.NotIn)) and r[0] in ('enum', 'enumf'):
                     q2 = q2.event('snapshot-read', r[1], r[2])
                 elif l[0] == 'int' and r[0] == 'int' and l[2] == 0 and r[2] == 0 and \
                         isinstance(op, (ast.Lt, ast.LtE, ast.Gt, ast.GtE)):
@@ -802,7 +812,7 @@ class Interp:
             key = 'attr:' + attr
             if key in q.st:
                 val = q.st[key]
-                if val[0] == 'enum':
+                if val[0] in ('enum', 'enumf'):
                     q = q.event('snapshot-read', val[1], val[2])
                 return val, q
             if attr == 'options':
